@@ -534,6 +534,7 @@ func (c *Ctx) ruleWideAndReduce(cfg string, box limbBox) {
 					// same symbols: carry chain of v+19, conditional +19, second carry chain, 51-bit masks
 					refOK := false
 					refWhy := ""
+					var vmax *big.Int
 					{
 						d2 := absint.NewLimbDom(p, true)
 						in2 := absint.New(p, d2)
@@ -542,6 +543,16 @@ func (c *Ctx) ruleWideAndReduce(cfg string, box limbBox) {
 						ro := in2.Exec(func() []absint.Val {
 							in2.Call(nil, c.anchor(p, "field.(*Element).carryPropagate"), []absint.Val{w})
 							L := w.Obj.Val.(*absint.Agg).Elems
+							// the integer held after the light reduction, at the limb invariant: Σ hi_i·2^(51i)
+							vmax = new(big.Int)
+							for i := 4; i >= 0; i-- {
+								_, hi, ok := valBounds(L[i])
+								if !ok {
+									vmax = nil
+									break
+								}
+								vmax.Lsh(vmax, 51).Add(vmax, hi)
+							}
 							u := func(k int64) absint.Val { return absint.MkInt(k) }
 							bin := in2.BinOpU64
 							cc := bin(token.SHR, bin(token.ADD, L[0], u(19)), u(51))
@@ -578,10 +589,28 @@ func (c *Ctx) ruleWideAndReduce(cfg string, box limbBox) {
 						why = refWhy
 					}
 					o.OK = masked && form && bad == 0 && refOK
-					o.Detail = "reduce is limb-for-limb the reference freeze (carryPropagate; c = carry of v+19 through all five limbs; v += 19c; second carry chain; 51-bit masks); every output limb ≤ 2^51−1 at the invariant; Σ out_i·2^(51i) ≡ val(v) + 19·(c − carry-out of limb 4) (mod p) with c the carry of v+19 — value preserved iff c equals that carry-out (the nested-floor identity, which holds because the carried value is < 2^255+2^13·19; NOT decided here)"
+					o.Detail = "reduce is limb-for-limb the reference freeze (carryPropagate; c = carry of v+19 through all five limbs; v += 19c; second carry chain; 51-bit masks); every output limb ≤ 2^51−1 at the invariant; Σ out_i·2^(51i) ≡ val(v) + 19·(c − carry-out of limb 4) (mod p) with c the carry of v+19 — value preserved iff c equals that carry-out: the nested-floor lemma, whose side condition is the obligation REDUCE-RANGE"
 					if !o.OK {
 						o.Detail = fmt.Sprintf("reduce does not have the freeze form (limbs masked: %v, residual form: %v, matches reference: %v [%s], failing machine obligations: %d)", masked, form, refOK, why, bad)
 					}
+					// REDUCE-RANGE: the side condition of the nested-floor lemma (DESIGN §9) at the code's own bounds.
+					// With V the integer held after carryPropagate: c = ⌊(V+19)/2^255⌋ (nested floors of non-negative
+					// integers compose); if V < 2p then c ∈ {0,1}, the carry dropped by the second chain is
+					// ⌊(V+19c)/2^255⌋ = c, and the result is V − c·p ∈ [0,p).
+					ro2 := report.Obligation{Rule: "REDUCE-RANGE", Key: "REDUCE-RANGE/" + fname, Config: cfg, Pos: o.Pos}
+					twoP := new(big.Int).Lsh(absint.P25519, 1)
+					switch {
+					case !o.OK:
+						ro2.Detail = "not applicable: reduce is not the reference freeze (REDUCE-FORM)"
+					case vmax == nil:
+						ro2.Detail = "no bound for the limbs after carryPropagate"
+					case vmax.Cmp(twoP) >= 0:
+						ro2.Detail = fmt.Sprintf("after carryPropagate the integer held may reach %s ≥ 2p: the single conditional subtraction of the freeze does not reach the canonical representative", vmax)
+					default:
+						ro2.OK = true
+						ro2.Detail = fmt.Sprintf("after carryPropagate at the limb invariant the integer held is ≤ %s < 2p = %s: by the nested-floor lemma c = ⌊(V+19)/2^255⌋ ∈ {0,1}, the carry dropped at the end equals c, and reduce leaves V − c·p ∈ [0,p) — the canonical representative (given REDUCE-FORM: the code is limb for limb the reference freeze)", vmax, twoP)
+					}
+					c.Set.Add(ro2)
 				}
 			}
 		}
